@@ -129,6 +129,22 @@ CLAIMED["C11"] = (
     "DESIGN.md §4 C11",
 )
 
+CLAIMED["C08"] = (
+    "For every file content, comment placement and code list (List Char of any length), the model of refurb's comment suppression is "
+    "proved to remove exactly the diagnostics an appended `# noqa` / `# noqa: LIST` names and to leave every other diagnostic, line and "
+    "the report order unchanged (noqa_bare, noqa_codes, noqa_absent, other_codes/lines_unaffected, filter_exact via filter/stable-sort "
+    "commutation), wherever get_source_lines cuts the file as Python's tokenizer does. How the tree cuts lines is probed on every run "
+    "(Generated/NoqaLines.lean): for str.splitlines the unguarded law is refuted by a form-feed witness and proved for files without the "
+    "eight exotic separators; for newline-only splitting (today's repaired code) it is proved for all contents. Model compared with the "
+    "real functions in-process (~8k cases) and the law tested end to end through the CLI with every separator, CRLF/CR, BOM, tabs, "
+    "non-ASCII and custom prefixes.",
+    COMMON_NOTE
+    + "Modelled, not verified: that checks and mypy are insensitive to appended comments (oracle only); is_ignored_via_amend is a "
+    "parameter; reported lines lie within the file (C07); the isspace/splitlines character sets are transcribed.",
+    "Lean 4 induction proofs over List Char + behaviour-probed generated table + in-process correspondence + metamorphic CLI oracle",
+    "DESIGN.md §4 C08",
+)
+
 NOT_YET = "check not built yet in this round (work in progress; see DESIGN.md §8 order of work)"
 
 
